@@ -41,6 +41,7 @@ ASSUMPTIONS = [
 TOLERANCES = {"transparency": "array_equal, same dtype and shape"}
 BUDGET = {"quick": dict(examples=120, shards=1, enum_procs=1), "thorough": dict(examples=400, shards=16, enum_procs=16)}
 STEP_COUNT = {"quick": 25, "thorough": 40}
+CONFIRM_FRESH_PROCESS = True
 
 
 def warmup():
